@@ -217,6 +217,32 @@ example : ∃ U L : Num ℚ, ∃ D cs', Calc.supertrend Demo.ops (Demo.ctx "ST_3
     (.flt 18) (.flt 10) 1 (fun _ => Demo.cs) rfl rfl rfl rfl rfl rfl (Or.inl rfl) (fun _ => rfl)
   exact ⟨U, L, _, _, h⟩
 
+/-- **Supertrend flips exactly when the close breaks the previous ACTIVE band** ("flipping when the close
+breaks the previous band"): out of an up-trend iff the close is below the previous lower band, out of a
+down-trend iff it is above the previous upper band – whatever the idle band is, in particular when the
+stored bands have crossed.  (False of the pinned code, which tested the idle band first: see
+known_findings `C05-0d81c09`; the witness found by the oracle is in corpus/C05.json.) -/
+theorem supertrend_flips_on_active_break (close pu pl : K) :
+    (stDir close pu pl 1 = -1 ↔ close < pl) ∧ (stDir close pu pl (-1) = 1 ↔ pu < close) := by
+  constructor
+  · constructor
+    · intro h
+      by_contra hn
+      rw [stDir_keep_up close pu pl hn] at h
+      cases h
+    · exact stDir_flip_down close pu pl
+  · constructor
+    · intro h
+      by_contra hn
+      rw [stDir_keep_down close pu pl hn] at h
+      cases h
+    · exact stDir_flip_up close pu pl
+
+/-- the crossed-bands state of the oracle's witness: previous direction up, previous lower (active) band
+165.415, previous upper (idle) band 158.4356, close 159.74 – the trend flips down -/
+example : stDir (159.74 : ℚ) 158.4356 165.415 1 = -1 := by
+  apply stDir_flip_down; norm_num
+
 /-- first Supertrend candle with an ATR: plain bands, up-trend -/
 theorem supertrend_first (ops : Ops K) (x : Ctx K) (mult a hl : Num K) (w : Val K → List (Candle K))
     (ha : x.reading (x.name ++ "_atr") = .ok (.num a))
